@@ -1,5 +1,6 @@
 import CoapVerif.Lemmas.LinkFormat
 import CoapVerif.Lemmas.WkBlock
+import CoapVerif.Lemmas.WkLive
 import CoapVerif.Props.C16
 /-
 C20 — `/.well-known/core` lists exactly the registered resources in any window / filter.
@@ -308,6 +309,85 @@ example :
     let st := runX t 0 xs SState.init [0, 1, 0, 1, 0]
     (st.x 0).buf = listing t [] ∧ (st.x 0).next = 2 ∧ (st.x 1).buf = (listing t []).take 16 ∧ (st.x 1).done = true ∧
     (st.x 0).buf ≠ (st.x 1).buf := by
+  decide
+
+/-! ### a live server: the listing is that of the resources registered NOW -/
+
+/-- the requests of a run are requests a client can send (option values ≤ 65535 bytes), no listing exceeds the
+printer's 28-bit length, and the client does not give up before the last block -/
+def LiveOk (fuel : Nat) : Table → List LiveEv → Prop
+  | _, [] => True
+  | t, .op o :: r => LiveOk fuel (applyOp t o) r
+  | t, .get _ szx opts :: r =>
+    (C16.Small opts ∧ (getListing t opts).length ≤ STATUS_MAX ∧
+      nblocks (getListing t opts).length (2 ^ (szx + 4)) ≤ fuel) ∧ LiveOk fuel t r
+  | t, .print qf :: r => (listing t (qf.getD [])).length ≤ STATUS_MAX ∧ LiveOk fuel t r
+
+theorem liveKeyed_of_ok (fuel : Nat) (evs : List LiveEv) : ∀ t, LiveOk fuel t evs → LiveKeyed fuel t evs := by
+  induction evs with
+  | nil => intro _ _; trivial
+  | cons e r ih =>
+    intro t h
+    cases e with
+    | op o => exact ih _ h
+    | get sid szx opts =>
+      obtain ⟨⟨hs, hl, hf⟩, hr⟩ := h
+      obtain ⟨body, hb, he, _⟩ := get_reassembles t opts hl 1 (by omega)
+      exact ⟨⟨⟨_, C16.get_query_eq_spec opts hs⟩, by rw [hb, he], hf⟩, ih t hr⟩
+    | print qf => exact ⟨get_body_eq_listing t qf h.1, ih t h.2⟩
+
+/-- (currently registered) for EVERY sequence of table changes — `coap_add_resource`, `coap_delete_resource`,
+`coap_add_attr` and `coap_resource_set_get_observable` on resources that are already registered — interleaved with
+complete block-wise GETs (any Uri-Query options, any Block2 size, any session) and listings printed by the application,
+starting from any table and any content of the sessions' Block2 caches: every request yields exactly the listing of
+the table as it is when the request arrives, in `⌈len/size⌉` responses, without failure.  Nothing an earlier request
+computed (a length, a body, a cache entry) shows in a later answer. -/
+theorem live_gets_current_listing (fuel : Nat) (st : LState) (evs : List LiveEv) (h : LiveOk fuel st.table evs) :
+    liveRun fuel st evs = liveSpec st.table evs :=
+  liveRun_eq_spec fuel evs st (liveKeyed_of_ok fuel evs st.table h)
+
+/-- the instance a stale size would break: GET, describe a registered resource further (or flip its observable
+flag, or any other table operation), GET again — the second body is the listing of the changed table -/
+theorem get_after_change (fuel : Nat) (st : LState) (o : TableOp) (sid szx : Nat) (opts : List Bytes)
+    (h : LiveOk fuel st.table [.get sid szx opts, .op o, .get sid szx opts]) :
+    liveRun fuel st [.get sid szx opts, .op o, .get sid szx opts] =
+      [⟨getListing st.table opts, nblocks (getListing st.table opts).length (2 ^ (szx + 4)), false⟩,
+       ⟨getListing (applyOp st.table o) opts,
+        nblocks (getListing (applyOp st.table o) opts).length (2 ^ (szx + 4)), false⟩] :=
+  live_gets_current_listing fuel st _ h
+
+/-- an attribute added to a registered resource is part of that resource's link from then on (and the resource keeps
+its place): with `link_shows_everything` the link shows it first among the attributes -/
+theorem attr_added_is_listed (t : Table) (p : Bytes) (a : Attr) :
+    applyOp t (.attr p a) = t.map (fun r => if r.path == p then { r with attrs := a :: r.attrs } else r) ∧
+    (applyOp t (.attr p a)).map (·.path) = t.map (·.path) ∧
+    ∀ r ∈ t, r.path = p → addAttr r a ∈ applyOp t (.attr p a) ∧
+      link (addAttr r a) = [0x3C, 0x2F] ++ r.path ++ [0x3E] ++ (attrBytes a ++ (r.attrs.map attrBytes).flatten) ++
+        (if r.observable then sObs else []) ++ (if r.oscoreOnly then sOsc else []) := by
+  refine ⟨rfl, ?_, ?_⟩
+  · simp only [applyOp, List.map_map]
+    apply List.map_congr_left
+    intro r _
+    simp only [Function.comp]
+    split <;> rfl
+  · intro r hr hp
+    refine ⟨?_, ?_⟩
+    · simp only [applyOp, List.mem_map]
+      exact ⟨r, hr, by simp [hp]⟩
+    · rfl
+
+/-- non-vacuity (the seeded stale-length scenario): `</a>;rt=x` and `</b>`; unfiltered GET (szx 0), `title` added to
+the registered `a`, `b` made observable, unfiltered GET on the same session, filtered GET, and the application's own
+print: the hypotheses hold and the bodies follow the table -/
+example :
+    let t : Table := [⟨[0x61], [⟨sRt, some [0x78]⟩], false, false⟩, ⟨[0x62], [], false, false⟩]
+    let evs : List LiveEv := [.get 0 0 [], .op (.attr [0x61] ⟨[0x74, 0x69, 0x74, 0x6C, 0x65], some [0x22, 0x52, 0x22]⟩),
+      .get 0 0 [], .op (.obs [0x62] true), .get 0 0 [], .get 0 0 [sRt ++ [0x3D, 0x78]], .print none]
+    LiveOk 5001 t evs ∧
+    (liveRun 5001 ⟨t, fun _ => []⟩ evs).map (fun r => (r.buf.length, r.nresp, r.failed)) =
+      [(14, 1, false), (24, 2, false), (28, 2, false), (19, 2, false), (28, 0, false)] := by
+  refine ⟨?_, by decide⟩
+  simp only [LiveOk, C16.Small, STATUS_MAX]
   decide
 
 /-! ### non-vacuity: concrete instances, and the behaviour the three `fix:` commits removed -/
